@@ -101,15 +101,19 @@ def replay(obname, params, values):
     """run the obligation with plain python values; returns (clause results dict, obs) or ('assumption', None)"""
     ob = registry.load_all()[obname]
     inp = core.ConcreteInput(values)
+    saved = core.CTX
     core.CTX = None
     try:
-        res = ob.fn(inp, **params)
-    except Abort:
-        return None, None
-    out = {}
-    for k, v in res.clauses.items():
-        out[k] = _eval_clause_concrete(v)
-    return out, res.obs
+        try:
+            res = ob.fn(inp, **params)
+        except Abort:
+            return None, None
+        out = {}
+        for k, v in res.clauses.items():
+            out[k] = _eval_clause_concrete(v)
+        return out, _jsonable(_obs(res.obs))
+    finally:
+        core.CTX = saved
 
 
 def _cvc5_verdict(c, neg):
@@ -251,11 +255,12 @@ def run_task(args):
             if len(out['samples']) < SAMPLES_PER_TASK and nt and not todo:
                 if c.sat():
                     vals = core.model_values(c, c.model())
+                    sample_obs = _jsonable(_obs(res.obs))
                     # translation check: the same inputs, run without any proxy, must satisfy every clause too
                     cl_res, _ = replay(obname, params, vals)
                     agrees = cl_res is not None and all(v is True for v in cl_res.values())
                     out['samples'].append(dict(obligation=obname, params=params, inputs=vals, path_decisions=len(c.trace),
-                                               obs=_jsonable(_obs(res.obs)), concrete_replay_agrees=agrees))
+                                               obs=sample_obs, concrete_replay_agrees=agrees))
                     out['sample_replays'] = out.get('sample_replays', 0) + 1
                     if not agrees:
                         out['sample_mismatch'] = dict(inputs=vals, replay=_jsonable(cl_res))
